@@ -9,6 +9,7 @@
 -/
 import ClairModel.Model.VerRpm
 import ClairModel.Model.VerDeb
+import ClairModel.Model.VerApk
 
 namespace ClairModel.Matchers
 open ClairModel.Order ClairModel.VerCommon
@@ -133,5 +134,14 @@ def vulnerableUbuntu (p : Pkg) (v : Vuln) : Out :=
       | some v2 =>
         if v2.toStr = ['0'] then .ok true
         else debLess v1 v2
+
+/-- alpine/matcher.go: `""` = no fix yet, `"0"` = not affected (secdb), a
+    version apk cannot parse is never reported (and is no error). -/
+def vulnerableAlpine (p : Pkg) (v : Vuln) : Out :=
+  if v.fixed = [] then .ok true
+  else if v.fixed = ['0'] then .ok false
+  else if !VerApk.valid p.version then .ok false
+  else if !VerApk.valid v.fixed then .ok false
+  else .ok (decide (VerApk.compare p.version v.fixed = .lt))
 
 end ClairModel.Matchers
